@@ -239,7 +239,7 @@ def event_wiring(ck, rb):
             got = list(trace)
         except Exception as e:
             got = "raised %r" % (e,)
-        ck.struct("ring.events.%s" % name.split("(")[0], got == want, "%s: record operations %s, contract %s" % (name, got, want), {"attr": name, "no_input": False})
+        ck.struct("ring.events.%s" % name.split("(")[0], got == want, "%s: record operations %s, contract %s" % (name, got, want), {"attr": name})
 
 
 def run(tier, seed, replay=None):
